@@ -14,7 +14,7 @@ from __future__ import annotations
 import random
 import re
 
-from harness.artifacts import HEVM, Contract, Fn, cheat_call, panic, run_contract, selector
+from harness.artifacts import HEVM, Contract, Fn, arg, cheat_call, panic, run_contract, selector
 from harness.asm import assemble
 from harness.common import Check, MachineryError, cleanup, run_tlc, workdir
 
@@ -73,6 +73,11 @@ def build_contract():
     # what a test learns about the symbol of the post-setUp state (slot 3) stays in that test
     test_fns.append(Fn("check_eq_a()", [("PUSH", 64), ("PUSH", 3), "SLOAD", "EQ", "ISZERO", ("PUSHL", "ne"), "JUMPI", "STOP", ("LABEL", "ne"), "STOP"]))
     test_fns.append(Fn("check_ret_b()", [("PUSH", 3), "SLOAD", ("PUSH", 0), "RETURN"]))
+    k5 = [("PUSH", 5), ("PUSH", 0x200), "MSTORE", ("PUSH", 32), ("PUSH", 0x200), "SHA3"]
+    test_fns.append(Fn("check_hash_a()", k5 + ["POP", "STOP"]))
+    # keccak(x) == keccak(5) && x != 5  =>  Panic(1)
+    test_fns.append(Fn("check_hash_b(uint256)", arg(0) + [("PUSH", 0x240), "MSTORE", ("PUSH", 32), ("PUSH", 0x240), "SHA3"] + k5 + ["EQ", "ISZERO", ("PUSHL", "hb_ok"), "JUMPI"]
+                       + arg(0) + [("PUSH", 5), "EQ", ("PUSHL", "hb_ok"), "JUMPI"] + panic(1) + [("LABEL", "hb_ok"), "STOP"]))
     test_fns.append(Fn("invariant_a()", _assert(s1_is_1, "ia") + ["STOP"]))
     test_fns.append(Fn("invariant_b()", _assert(s1_is_1, "ib1") + _assert(s0_is_7, "ib0") + ["STOP"]))
     c = Contract("IsoT", test_fns, data=[("MARK", "tinit"), ("RAW", tinit), ("MARK", "tiny"), ("RAW", tiny), ("MARK", "c1"), ("RAW", c1), ("MARK", "c2"), ("RAW", c2)])
@@ -82,6 +87,8 @@ def build_contract():
 def sig_of(name: str) -> str:
     if name == "loopy":
         return "check_loopy(uint256)"
+    if name == "hash_b":
+        return "check_hash_b(uint256)"
     return f"invariant_{name[4:]}()" if name.startswith("inv_") else f"check_{name}()"
 
 
@@ -129,7 +136,7 @@ def run(chk: Check, tier: str):
         # histories in which the second test reads what the first one writes are always replayed
         kinds = ["storage", "transient", "balance", "code", "time"]
         conflicts = {(f"write_{k}", f"read_{k}") for k in kinds} | {(f"write_{k}", f"write_{k}") for k in kinds} | \
-                    {("eq_a", "ret_b"), ("ret_b", "eq_a"), ("ret_b", "ret_b"), ("annotated", "loopy"), ("loopy", "annotated"), ("loopy", "loopy"), ("alias_a", "alias_b"), ("alias_b", "alias_b"), ("alias_b", "alias_a"), ("inv_a", "inv_b"), ("inv_b", "inv_a"), ("write_storage", "inv_b")}
+                    {("eq_a", "ret_b"), ("ret_b", "eq_a"), ("ret_b", "ret_b"), ("annotated", "loopy"), ("loopy", "annotated"), ("loopy", "loopy"), ("alias_a", "alias_b"), ("alias_b", "alias_b"), ("alias_b", "alias_a"), ("inv_a", "inv_b"), ("inv_b", "inv_a"), ("write_storage", "inv_b"), ("hash_a", "hash_b"), ("hash_b", "hash_b"), ("hash_b", "hash_a")}
         must = [h for h in hists if len(h) == 2 and (h[0]["test"], h[1]["test"]) in conflicts]
         if len(must) != len(conflicts):
             raise MachineryError(f"TestRun.tla did not enumerate every conflicting pair: {len(must)} of {len(conflicts)}")
@@ -200,7 +207,7 @@ def run(chk: Check, tier: str):
     finally:
         cleanup(work)
     chk.cov["rule"] = (
-        "all orders with repetition of <= 2 (quick: all of length 1, every writer-then-reader pair, 30 sampled others of length 2) / <= 3 (thorough) of 18 tests "
+        "all orders with repetition of <= 2 (quick: all of length 1, every writer-then-reader pair, 30 sampled others of length 2) / <= 3 (thorough) of 20 tests "
         "(writers and readers of storage, transient storage, a balance, created code, block timestamp; two tests calling the symbolic address "
         "chosen by setUpSymbolic(address) (the per-path alias cache); a test with a function-level `@custom:halmos --loop 4` annotation and a test whose verdict depends on the loop bound; two invariant tests sharing the frontier cache), enumerated by TLC from TestRun.tla and replayed through one run_contract call each; "
         "per test the exit code must equal the model's and the normalised result must be the same in every history"
